@@ -142,6 +142,9 @@ func cmdVerify(argv []string) {
 		}
 		fmt.Println()
 		for _, o := range vc.obls {
+			if o.Status == "proved" && o.TimeS > 3 {
+				fmt.Printf("    slow     %s [%s %.1fs]\n", o.Name, o.Solver, o.TimeS)
+			}
 			if o.Status != "proved" {
 				bad++
 				fmt.Printf("    %-8s %s  [%s %.2fs] %s @%s\n      %s\n", o.Status, o.Name, o.Solver, o.TimeS, o.Text, o.Pos, firstLines(o.Detail+" "+o.Model, 6))
